@@ -219,6 +219,20 @@ def corpus():
         for i in range(len(tagsets)):
             evs += [E("INS", 30 + i), E("NOTE", 12, 4, 0)]
         out.append((build_request(groups, [wtok], {10: evs}), ["pcm", "pcm-same-wave"]))
+    # two different wave files, the later instruments reusing the data of an earlier one (with a
+    # rate or offset override): the `pcmd` chunk must hold every sample, wherever the last header points
+    w2name = "c09_other.wav"
+    w2tok = "W:%s=%s" % (w2name, wav_bytes(8000, 5).hex())
+    w1big = "W:%s=%s" % (wname, wav_bytes(9000, 9).hex())
+    for wt, tagsets in ((wtok, [["pcm", wname], ["pcm", w2name], ["pcm", wname, "rate=8000"]]),
+                        (w1big, [["pcm", wname], ["pcm", w2name], ["pcm", wname, "rate=8000"]]),
+                        (w1big, [["pcm", wname], ["pcm", w2name], ["pcm", wname, "offset=100"]]),
+                        (w1big, [["pcm", w2name], ["pcm", wname], ["pcm", w2name, "rate=22050"], ["pcm", wname, "offset=4000"]])):
+        groups = [("@%d" % (30 + i), t) for i, t in enumerate(tagsets)]
+        evs = []
+        for i in range(len(tagsets)):
+            evs += [E("INS", 30 + i), E("NOTE", 12, 4, 0)]
+        out.append((build_request(groups, [wt, w2tok], {10: evs}), ["pcm", "pcm-reuse-earlier"]))
     # duplicate definitions share one entry; unused ones are not emitted
     out.append((build_request([("@1", fm_tokens(1)), ("@2", fm_tokens(1)), ("@3", fm_tokens(2)), ("@m1", ["0>1:10"]), ("@m2", ["0>1:10"]), ("@m3", ["0>2:10"])], [],
                               {12: [E("INS", 2), E("INS", 1), E("PITCH_ENVELOPE", 2), E("PITCH_ENVELOPE", 1), E("NOTE", 36, 6, 0)], 400: [E("NOTE", 1, 1, 0)]}),
